@@ -134,6 +134,13 @@ def seed_r2b_size_check():
     # /tmp/seed-r2b/out/3: abstract_positive_literal only measures subgoals that have no table yet
     subprocess.run(["git", "-C", WT, "apply", "--include=chalk-engine/src/logic.rs", "/tmp/seed-r2b/out/3/patch.diff"], check=True)
 
+@mut
+def seed_r4a_table_registered_early():
+    # round 4, seeded/C12-slg-table-registered-before-clauses-resolved: build_table registers the table before the
+    # clause resolution loop; needs a fault in the n-th unification_database()/variance call (C12 sweep)
+    subprocess.run(["git", "-C", WT, "apply", "/verif/seeded/C12-slg-table-registered-before-clauses-resolved/patch.diff"], check=True)
+
+
 def main():
     name, checks = sys.argv[1], sys.argv[2:]
     subprocess.run(["git", "-C", WT, "checkout", "-q", "."], check=True)
